@@ -89,6 +89,14 @@ def labelGate (cfgLabel : Bytes) (skipInbound : Bool) (carried : Bytes) : Option
   if skipInbound then (if !carried.isEmpty then none else some cfgLabel)
   else if cfgLabel == carried then some carried else none
 
+/-- a sealed stream (push/pull, reliable user message, fallback ping) as `handleConn` treats it: the label
+gate first, then the AEAD opens only under an installed key with the label the receiver went on with as
+associated data. `carried` is the label header on the stream, `aad` the label the sender sealed with. -/
+def sealedStreamAdmitted (cfgLabel : Bytes) (skipInbound : Bool) (carried aad : Bytes) (keyInstalled : Bool) : Bool :=
+  match labelGate cfgLabel skipInbound carried with
+  | none => false
+  | some l => keyInstalled && l == aad
+
 /-! ### PKCS7 -/
 
 /-- `pkcs7encode` with `ignore = 0` -/
